@@ -17,7 +17,7 @@ END = "<!-- END GENERATED 12.5 -->"
 
 def load_sensitivity():
     res = {}
-    for f in sorted(glob.glob(os.path.join(ROOT, "work", "sensitivity*.json")), key=os.path.getmtime):
+    for f in sorted(glob.glob(os.path.join(ROOT, "notes", "sensitivity*.json")), key=os.path.getmtime):
         for row in json.load(open(f)):
             res[row[0]] = row
     return res
@@ -26,7 +26,7 @@ def load_sensitivity():
 def main():
     sens = load_sensitivity()
     val = {}
-    vf = os.path.join(ROOT, "work", "mutant_validation.json")
+    vf = os.path.join(ROOT, "notes", "mutant_validation.json")
     if os.path.exists(vf):
         val = dict((x[0], x[1]) for x in json.load(open(vf)))
     out = [BEGIN, ""]
